@@ -124,7 +124,9 @@ def check_case(case, ctx):
                     o = next(it)
                 except StopIteration:
                     exhausted = True
-                    hi = len(items)
+                    # "no further result" may be known without pulling the rest (a plain False among the conditions): the
+                    # statement bounds what is pulled per delivered result, so anything from the old mark up to the end is fine
+                    hi = max(hi, max([e for e in li.log if e != "END"], default=-1) + 1)
                     break
                 got.append(pos_of.get(id(o), -1))
                 pulled = [e for e in li.log if e != "END"]
@@ -144,7 +146,7 @@ def check_case(case, ctx):
             if how == "exhaust" and not exhausted:
                 rest = [pos_of.get(id(o), -1) for o in it]
                 exhausted = True
-                hi = len(items)
+                hi = max(hi, max([e for e in li.log if e != "END"], default=-1) + 1)
                 if got + rest != qual:
                     ctx.fail("WRONG_RESULT", {"round": rno, "delivered_positions": got + rest, "qualifying_positions": qual})
                     return
